@@ -1,6 +1,6 @@
 (* C04 - definitions only.
    Spec side: the store invariant [wf_state] over the states of the shared reference interpreter
-   (Lang.Sem), the checked start-up of a program ([run_c04]: global initialisers are stores too).
+   (Lang.Sem) and the state in which a whole run ends.
    Mech side: what /repo does today on each store path, written from the C++ text:
      TypeManager::check_type_range            (managers/types/manager.cpp:137, table = Gen_RangeTable.v)
      VariableManager::clamp_unsigned_value    (managers/variables/initialization.cpp:46)
@@ -23,38 +23,14 @@ Definition wf_state (s : state) : Prop :=
 (* the relation handed to Lang.Respect.eval_exec_respect *)
 Definition wf_pres (s s' : state) : Prop := wf_state s -> wf_state s'.
 
-(* ------------------------------------------------------------------ Spec: checked program start *)
-(* Lang.Print.init_globals copies the initialisers unchecked; the property counts a global
-   initialiser as a store: it is converted like any other one (range error / unsigned clamp) *)
-Definition check_global (g : gdecl) : ctl gdecl :=
-  match coerce_all (gty g) (ginit g) with
-  | Val vs => Val {| gcst := gcst g; gty := gty g; gname := gname g; gdims := gdims g; ginit := vs |}
-  | Fail e => Fail e
-  | _ => Fail EUndef
+(* ------------------------------------------------------------------ Spec: a whole run *)
+(* Lang.Print.init_globals converts the global initialisers like any other store ([coerce_all]);
+   [None] = an initialiser was rejected and nothing runs. The state in which a run ends: *)
+Definition final_state (fuel : nat) (p : program) : option state :=
+  match init_state p with
+  | Some s0 => Some (snd (exec_list (exec (pfuncs p) fuel) (pmain p) s0))
+  | None => None
   end.
-Fixpoint check_globals (gs : list gdecl) : ctl (list gdecl) :=
-  match gs with
-  | [] => Val []
-  | g :: r => match check_global g with
-              | Val g' => match check_globals r with Val r' => Val (g' :: r') | Fail e => Fail e | _ => Fail EUndef end
-              | Fail e => Fail e
-              | _ => Fail EUndef
-              end
-  end.
-Definition with_globals (p : program) (gs : list gdecl) : program :=
-  {| pglobals := gs; pfuncs := pfuncs p; pmain := pmain p |}.
-Definition run_c04 (fuel : nat) (p : program) : list oitem * outcome :=
-  match check_globals (pglobals p) with
-  | Val gs => run fuel (with_globals p gs)
-  | Fail e => ([], Failed e)
-  | _ => ([], Failed EUndef)
-  end.
-(* the state in which a run ends *)
-Definition final_state (fuel : nat) (p : program) : state :=
-  snd (exec_list (exec (pfuncs p) fuel) (pmain p) (init_state p)).
-(* all global initialisers already are values of their types *)
-Definition globals_in_range (p : program) : Prop :=
-  Forall (fun g => Forall (fun v => in_range (gty g) v = true) (ginit g)) (pglobals p).
 
 (* ------------------------------------------------------------------ Mech: the two leaf functions *)
 (* VariableManager::clamp_unsigned_value (and its copies: the `clamp_unsigned` lambda of
@@ -75,12 +51,11 @@ Definition sext (bits : Z) (v : Z) : Z := (v + 2 ^ (bits - 1)) mod 2 ^ bits - 2 
 Definition narrow_read (t : ty) (v : Z) : Z :=
   match base t with TTiny => sext 8 v | TShort => sext 16 v | TInt => sext 32 v | _ => v end.
 
-(* evaluator/access/member_helpers.cpp consume_numeric_typed_value: a number that "looks like an
-   address" becomes a TYPE_POINTER value, and VariableManager::assign_variable stores pointer
-   values without the range check *)
+(* evaluator/access/member_helpers.cpp consume_numeric_typed_value (after fix 7c216d9): a number in the
+   user-space address range 0x1_0000_0000 .. 0x7fff_ffff_ffff becomes a TYPE_POINTER value, and
+   VariableManager::assign_variable stores pointer values without the range check *)
 Definition looks_like_pointer (v : Z) : bool :=
-  let u := v mod 2 ^ 64 in
-  ((4294967296 <=? u) && (u <=? 140737488355327)) || (18446603336221196288 <=? u).
+  let u := v mod 2 ^ 64 in (4294967296 <=? u) && (u <=? 140737488355327).
 
 (* ------------------------------------------------------------------ Mech: the store paths *)
 Inductive path :=
